@@ -124,6 +124,15 @@ def r8(ctx: Ctx, rep: Report):
             r = Replay(prog, fn, p)
             argfacts = [f for f in r.facts if f.lin is not None and any(t == ("var", prm) for t in f.lin.terms for prm in domain)]
             if joint_contradiction(dom, argfacts) is None and bad is None:
+                # a test of the arguments that produced no linear fact (tuples compared, a helper predicate ...) is not
+                # understood - that is no evidence of a rejected valid argument
+                opaque_tests = [ev for ev in p.events if ev.kind == "test" and any(isinstance(x, ast.Name) and x.id in domain for x in ast.walk(ev.node))
+                                and not isinstance(ev.node, ast.Compare)]
+                opaque_tests += [ev for ev in p.events if ev.kind == "test" and isinstance(ev.node, ast.Compare)
+                                 and any(isinstance(x, ast.Tuple) for x in [ev.node.left] + list(ev.node.comparators))
+                                 and any(isinstance(x, ast.Name) and x.id in domain for x in ast.walk(ev.node))]
+                if opaque_tests:
+                    raise AnalysisError("%s: the argument test %s is not understood (no bound on %s can be read off it)" % (fn.short, norm(opaque_tests[0].node)[:80], "/".join(domain)))
                 bad = p
         if n == 0:
             raise AnalysisError("%s: no path to judge" % fn.short)
@@ -547,7 +556,8 @@ def r2(ctx: Ctx, rep: Report):
             if p.end == "raise" and prog.exc_name(p.end_data) == "ValueError":
                 rpx = Replay(prog, s, p)
                 argv = {("var", a) for a in s.params[2:]}
-                is_range_rejection = any(f.lin is not None and (set(f.lin.terms) & argv) for f in rpx.facts)
+                is_range_rejection = any(f.lin is not None and (set(f.lin.terms) & argv) for f in rpx.facts) or \
+                    any(ev.kind == "test" and any(isinstance(x, ast.Name) and x.id in s.params[2:] for x in ast.walk(ev.node)) for ev in p.events)
             if p.end == "raise" and not is_range_rejection:
                 raising |= sel
             elif has_effect and len(sel) <= 2:
@@ -654,8 +664,41 @@ def switch_offsets(ctx: Ctx, rep: Report):
 
 
 # ----------------------------------------------------------------------- R4
-def template_fields(call: ast.Call) -> Optional[Tuple[str, List[ast.expr]]]:
-    """bytes.fromhex("...".format(args)) or bytes.fromhex(f"...{x:04x}...")  ->  (template, args)"""
+def template_fields(call: ast.Call, fold=None) -> Optional[Tuple[str, List[ast.expr]]]:
+    """bytes.fromhex("...".format(args)) or bytes.fromhex(f"...{x:04x}...")  ->  (template, args); placeholders whose
+    argument is a constant (a literal piece of the group handed to a shared helper) are folded into the template."""
+    r = _template_fields(call)
+    if r is None or fold is None:
+        return r
+    tmpl, args = r
+    out, rest, ai = "", [], 0
+    for m in re.finditer(r"\{(:0(\d+)x)?\}|[^{}]+", tmpl):
+        tok = m.group(0)
+        if not tok.startswith("{"):
+            out += tok
+            continue
+        if ai >= len(args):
+            return r
+        a = args[ai]
+        ai += 1
+        try:
+            v = fold(a)
+        except Exception:
+            v = None
+        if m.group(1) is None:
+            if isinstance(v, str):
+                out += v
+            else:
+                return r            # '{}' of something that is not a constant string: not understood
+        elif isinstance(v, int) and not isinstance(v, bool) and v >= 0 and len("%x" % v) <= int(m.group(2)):
+            out += ("%0" + m.group(2) + "x") % v
+        else:
+            out += tok
+            rest.append(a)
+    return out, rest
+
+
+def _template_fields(call: ast.Call) -> Optional[Tuple[str, List[ast.expr]]]:
     if not (isinstance(call, ast.Call) and norm(call.func) == "bytes.fromhex" and call.args):
         return None
     a = call.args[0]
@@ -777,7 +820,12 @@ def r4(ctx: Ctx, rep: Report):
                 raise AnalysisError("%s.encode_%s / is_eco_%s_mode missing" % (cname, kind, kind))
             from ..astutil import expand_locals
             rets = [n for n in ast.walk(enc.node) if isinstance(n, ast.Return)]
-            tf = template_fields(expand_locals(rets[0].value, enc.node)) if len(rets) == 1 else None
+            _fold = lambda x_: prog.consteval(x_, enc.module)
+            tf = template_fields(expand_locals(rets[0].value, enc.node), _fold) if len(rets) == 1 else None
+            if tf is None and len(rets) == 1:
+                # both encoders delegate to one private helper: its returned expression, arguments substituted
+                from ..astutil import inline_pure_calls
+                tf = template_fields(inline_pure_calls(ctx.res, enc, expand_locals(rets[0].value, enc.node), guards=True), _fold)
             key = "template:%s.encode_%s" % (cname, kind)
             if tf is None:
                 rep.violation("C19.R4", key, enc.loc(), "%s.encode_%s is not bytes.fromhex(<template>.format(...))" % (cname, kind))
@@ -970,7 +1018,8 @@ def _check_conjunct(prog, enc: FuncInfo, cj: ast.expr, lay, fields, kind: str) -
             return False
         is_neg = isinstance(e, ast.BinOp) and isinstance(e.op, ast.BitAnd) and \
             ((neg_abs(e.left) and cv(e.right) == 0xFFFF) or (neg_abs(e.right) and cv(e.left) == 0xFFFF))
-        is_pos = isinstance(e, ast.Call) and norm(e.func) == "abs"
+        is_pos = is_abs(e) or (isinstance(e, ast.BinOp) and isinstance(e.op, ast.BitAnd) and
+                               ((is_abs(e.left) and cv(e.right) == 0xFFFF) or (is_abs(e.right) and cv(e.left) == 0xFFFF)))      # |p| & 0xFFFF = |p| for |p| <= 1000
         if want_neg and not is_neg:
             return ["power field is %s, not -|p| masked to 16 bits (recogniser needs power < 0)" % src]
         if not want_neg and not is_pos:
